@@ -212,7 +212,7 @@ def coq_compare(ck, name, exprs, timeout=900):
     for i in range(0, len(exprs), 400):
         chunks.append("Definition c%d : list Z := [\n%s\n]." % (i // 400, ";\n".join(exprs[i:i + 400]) or ""))
     allc = " ++ ".join("c%d" % i for i in range(len(chunks))) or "[]"
-    prelude = ("From Coq Require Import ZArith List.\nFrom Common Require Import Base.\nFrom Arith Require Import Model.\n"
+    prelude = ("From Coq Require Import ZArith List.\nFrom Common Require Import Base.\nFrom Arith Require Import Model Prog.\n"
                "Import ListNotations.\nOpen Scope Z_scope.\n" + "\n".join(chunks) +
                "\nDefinition allc : list Z := Eval vm_compute in (%s).\n" % allc)
     ok, res = vf.coq_eval(GROUP, ck.work, name, prelude,
